@@ -4,8 +4,14 @@ P = {
     "rule": "scenarios on a real routing.Core per algorithm in {epidemic, spray, binary_spray, prophet, dtlsr (broadcast "
             "bundles), sensor-mule over epidemic} with 1..5 peers: 4 fixed scenarios per algorithm (failed then healthy "
             "peer; reception from a peer, retries and restart; two convergence senders of one peer; failure then restart), "
-            "mule sensors, direct delivery, plus random histories of 5-14 operations (reception with previous node = none / "
-            "a peer / another node, submission, peer up / second sender / down, retry tick, failure script on/off, restart) "
+            "mule sensors, direct delivery; per algorithm the bundle that LEAVES the store and is RECEIVED AGAIN from another "
+            "neighbour (relayed, delivered directly to its destination and deleted, destination gone, same bundle ID handed in "
+            "with a new previous node; the same after the store expiry of a clock-less bundle + clean_store; with the spray "
+            "metadata collected in between; a duplicate while the first copy is still held; for spray the node's own bundle "
+            "coming back); plus random histories of 5-14 operations (reception with previous node = none / "
+            "a peer / another node, clock-less or not, for elsewhere / a peer's node / an endpoint of this node, submission, peer "
+            "up / second sender / down, retry tick, failure script on/off, restart, re-reception of an earlier bundle with any "
+            "previous node, store expiry + cleaning, spray metadata collection) "
             "closed by a calm phase (all peers up and healthy, two ticks); distinct = distinct case bodies",
     "assumptions": [
         "ReportFailure is one atomic step (the lost update of two concurrent failure reports is handled under C05/C18)",
@@ -13,11 +19,16 @@ P = {
         "that a failed peer is the one offered next under binary spray)",
         "direct delivery to a connected peer that is the bundle's destination bypasses the algorithm (exempt in the "
         "checker; the generator never makes the destination peer the previous node)",
+        "a bundle handed in again while its first copy is still stored is dropped by Core.receive before the algorithm "
+        "hears of it: the previous node that counts is the one of the stored copy (a re-reception after the bundle left "
+        "the store starts a new holding: SlNew with the new previous node, earlier acknowledgements are void)",
     ],
     "trusted_base": [
         "the driver reconstructs the candidate list of each SenderForBundle call from the connected mock senders "
         "(iteration order of the CLA manager's sync.Map is validated, not predicted: observed choices first)",
         "PRoPHET predictabilities are set through the hook VerifProphetSetPeerPred",
+        "store expiry is brought about by moving the item's Expires into the past (storage.Store.Update) before "
+        "clean_store runs; the spray metadata collection by the hook VerifSprayGC",
     ],
     "level_text": "Theorems over all histories of one bundle (its bookkeeping is independent of other bundles): no choice of a "
                   "replicating algorithm contains the previous node or a peer with an acknowledged transmission while the bundle "
